@@ -1,6 +1,7 @@
 package main
 
 import (
+	"os/exec"
 	"crypto/sha256"
 	"encoding/hex"
 	"encoding/json"
@@ -328,7 +329,11 @@ func cmdProp(args []string) {
 		if !rp.Confirmed {
 			suffix = " no-failing-input-found"
 		}
-		fmt.Printf("VIOLATION property=%s replay=%s obligation=%s status=%s%s\n", id, rp.Path, o.Name, o.Result.Status, suffix)
+		tg := "default"
+		if o.Ctx != nil && o.Ctx.Tags != "" {
+			tg = o.Ctx.Tags
+		}
+		fmt.Printf("VIOLATION property=%s replay=%s obligation=%s tags=%s status=%s%s\n", id, rp.Path, o.Name, tg, o.Result.Status, suffix)
 	}
 	var bounded []BoundedResult
 	if plan.Bounded != nil {
@@ -424,7 +429,13 @@ type replayInfo struct {
 // writeReplay writes the replay file for a failed obligation (solver output, model, script) and,
 // when a model exists, tries to confirm it on the real code.
 func writeReplay(dir, id string, o *Obligation, repo string) replayInfo {
-	path := filepath.Join(dir, id+"-"+sanitize(o.Name)+".json")
+	hs := sha256.Sum256([]byte(o.Name))
+	tgs := ""
+	if o.Ctx != nil {
+		tgs = o.Ctx.Tags
+	}
+	hs = sha256.Sum256([]byte(o.Name + "|" + tgs))
+	path := filepath.Join(dir, id+"-"+sanitize(o.Name)+"-"+hex.EncodeToString(hs[:3])+".json")
 	out := map[string]interface{}{
 		"property":   id,
 		"obligation": o.Name,
@@ -433,6 +444,12 @@ func writeReplay(dir, id string, o *Obligation, repo string) replayInfo {
 		"status":     o.Result.Status,
 		"solver":     o.Result.Solver,
 		"note":       "this obligation is discharged on the unchanged tree; it is not discharged on the tree that was checked",
+	}
+	if o.Ctx != nil {
+		out["package"] = o.Ctx.Pkg.Pkg.Path()
+		out["tags"] = o.Ctx.Tags
+		out["function"] = o.Ctx.C.Func
+		out["alias_partition"] = o.Part
 	}
 	outp := o.Result.Output
 	if len(outp) > 20000 {
@@ -446,11 +463,11 @@ func writeReplay(dir, id string, o *Obligation, repo string) replayInfo {
 			m[k] = v.String()
 		}
 		out["model"] = m
-		if rr := replayModel(repo, o, dir, id); rr != nil {
-			out["replay"] = rr
-			if rr.Confirmed {
-				confirmed = true
-			}
+	}
+	if rr := replayCached(repo, o, dir, id); rr != nil {
+		out["replay"] = rr
+		if rr.Confirmed {
+			confirmed = true
 		}
 	}
 	if len(o.Script) < 400000 {
@@ -466,4 +483,71 @@ func orEmpty(s []oblRecord) []oblRecord {
 		return []oblRecord{}
 	}
 	return s
+}
+
+// one concrete search per (function, partition): several failed obligations of the same run share it,
+// except that an obligation with its own solver model is always replayed on that model.
+var replayMemo = map[string]*replayResult{}
+
+func replayCached(repo string, o *Obligation, dir, id string) *replayResult {
+	if o.Ctx == nil {
+		return nil
+	}
+	key := o.Func + "@" + o.Part + "|" + o.Ctx.Tags
+	if o.Result.Model == nil {
+		if r, ok := replayMemo[key]; ok {
+			return r
+		}
+	}
+	r := replayModel(repo, o, dir, id)
+	if o.Result.Model == nil || (r != nil && r.Confirmed) {
+		replayMemo[key] = r
+	}
+	return r
+}
+
+func cmdReplay(args []string) {
+	if len(args) != 1 {
+		fmt.Fprintln(os.Stderr, "usage: gcv replay <replay file>")
+		os.Exit(2)
+	}
+	b, err := os.ReadFile(args[0])
+	if err != nil {
+		fmt.Fprintln(os.Stderr, err)
+		os.Exit(2)
+	}
+	var r map[string]interface{}
+	json.Unmarshal(b, &r)
+	fmt.Printf("property %v obligation %v (%v)\n  spec: %v\n  solver status: %v (%v)\n", r["property"], r["obligation"], r["kind"], r["spec"], r["status"], r["solver"])
+	rp, _ := r["replay"].(map[string]interface{})
+	if rp == nil {
+		fmt.Println("  no concrete replay recorded (no-failing-input-found); see solver_output and smt_script in the file")
+		return
+	}
+	fmt.Printf("  confirmed on the real code: %v (source %v) violated clauses: %v\n  inputs: %v\n  outputs: %v\n", rp["confirmed"], rp["input_source"], rp["violated"], rp["inputs"], rp["outputs"])
+	src, _ := rp["go_test"].(string)
+	pkg, _ := r["package"].(string)
+	if src == "" || pkg == "" {
+		return
+	}
+	// re-run the recorded test against the current tree
+	scratch, _ := os.MkdirTemp("", "gcv-replay-")
+	defer os.RemoveAll(scratch)
+	rel := strings.TrimPrefix(pkg, "github.com/consensys/gnark-crypto/")
+	dir := filepath.Join("/repo", rel)
+	tf := filepath.Join(scratch, "zz_gcv_replay_test.go")
+	os.WriteFile(tf, []byte(src), 0o644)
+	ob, _ := json.Marshal(map[string]interface{}{"Replace": map[string]string{filepath.Join(dir, "zz_gcv_replay_test.go"): tf}})
+	of := filepath.Join(scratch, "overlay.json")
+	os.WriteFile(of, ob, 0o644)
+	a := []string{"test", "-overlay", of, "-vet=off", "-count=1", "-timeout", "60s", "-run", "^TestGcvReplay$", "-v"}
+	if t, _ := r["tags"].(string); t != "" {
+		a = append(a, "-tags", t)
+	}
+	a = append(a, ".")
+	cmd := exec.Command("go", a...)
+	cmd.Dir = dir
+	cmd.Env = append(os.Environ(), "GOFLAGS=-mod=mod", "GOPROXY=off", "GOSUMDB=off", "GOTOOLCHAIN=local")
+	out, _ := cmd.CombinedOutput()
+	fmt.Printf("  re-run on the current tree:\n%s\n", out)
 }
